@@ -17,6 +17,15 @@ theorem discard_final_frame (r : Rd) (s : Src) (cx : Ctx) (cb : Option Callback)
   unfold Rd.discard
   simp only [hd, hfr, Bool.not_false, if_true]
 
+/-- A size limit refuses only what EXCEEDS it: a data frame announcing exactly MaxFrameSize bytes (first frame or
+    continuation) that passes the header check is installed like any other. -/
+theorem frame_at_limit_accepted (r : Rd) (s s1 : Src) (cx : Ctx) (cb : Option Callback) (h : Header)
+    (hh : readHeaderUtil s = (.ok h, s1))
+    (hc : (if r.skipCheck then none else checkHeader h r.state) = none)
+    (hlen : h.len = r.maxFrame) (hext : r.ext = false) (hdata : opIsControl h.op = false) :
+    r.nextFrame s cx cb = (some h, none, enter r h, s1, cx) :=
+  nextFrame_data r s s1 cx cb h hh ⟨hc, by omega⟩ hext hdata
+
 /-- Non-vacuity: 2 of 5 payload bytes already read from a final masked frame, 3 left on the transport in
     two chunks, followed by the first byte of the next frame. -/
 example : (Rd.discard { state := 1, hasFrame := true, rawN := 3, masked := true, mask := ⟨1, 2, 3, 4⟩, cpos := 2 }
